@@ -411,6 +411,33 @@ func run(repo string) (string, error) {
 		}
 	}
 	fmt.Fprintf(&b, "/-- where NewEthAdaptor stores the configuration -/\ndef newAdaptorConfig : List String := %s\n\n", strList(newAd))
+	// the commit-reveal glue of the node: how handleCR builds the arguments of Commit and Reveal
+	fsD, fD, err := ex.Parse(filepath.Join(repo, "dosnode", "dos_chain_handler.go"))
+	if err != nil {
+		return "", err
+	}
+	hcr := ex.FuncDecl(fD, "DosNode", "handleCR")
+	if hcr == nil {
+		return "", fmt.Errorf("handleCR not found in dosnode/dos_chain_handler.go")
+	}
+	var crArgs []string
+	for _, l := range skeleton(fsD, hcr.Body) {
+		t := l[strings.Index(l, " ")+1:]
+		if strings.HasPrefix(t, "if ") {
+			// conditions that call Commit / Reveal
+			if strings.Contains(t, "d.chain.Commit(") || strings.Contains(t, "d.chain.Reveal(") {
+				crArgs = append(crArgs, t)
+			}
+			continue
+		}
+		for _, k := range []string{"sec", "hash", "h :=", "h.", "b :=", "cid"} {
+			if strings.Contains(t, k) && !strings.Contains(t, "logger") {
+				crArgs = append(crArgs, t)
+				break
+			}
+		}
+	}
+	fmt.Fprintf(&b, "/-- dosnode handleCR: every statement that computes the secret, the commitment, the cid, and the two calls, in order -/\ndef handleCRArgs : List String := %s\n\n", strList(crArgs))
 	b.WriteString("structure Closure where\n  method : String\n  prep : List String\n  results : String\n  call : String\n  assigns : List (String × String)\n  last : String\n  deriving DecidableEq, Repr\n\n")
 	b.WriteString("/-- the request closures `f := func(ctx) (tx, err) {…}` of the adaptor's methods -/\ndef closures : List Closure := [\n")
 	for i, c := range cls {
